@@ -130,7 +130,12 @@ func boundaryMsgs(r *vlib.Rand, thorough bool) []message.Message {
 		out = append(out, message.Message{Cid: c, Addrs: make([][]byte, n)})
 		out = append(out, message.Message{Cid: c, OrigPeer: string(make([]byte, n))})
 	}
-	if thorough {
+	// the byte-string caps are not the array cap: lengths around MaxLength must pass
+	for _, n := range []int{cbg.MaxLength, cbg.MaxLength + 1, 70000} {
+		out = append(out, message.Message{Cid: c, ExtraData: make([]byte, n)})
+		out = append(out, message.Message{Cid: c, Addrs: [][]byte{make([]byte, n), {2}}})
+	}
+	{
 		for _, n := range []int{cbg.ByteArrayMaxLen, cbg.ByteArrayMaxLen + 1} {
 			out = append(out, message.Message{Cid: c, ExtraData: make([]byte, n)})
 			out = append(out, message.Message{Cid: c, Addrs: [][]byte{{1}, make([]byte, n)}})
